@@ -37,6 +37,9 @@ class Scratch:
         return os.path.join(self.dir, *p)
 
     def cleanup(self):
+        if os.environ.get("VERIF_KEEP"):
+            log("scratch kept:", self.dir)
+            return
         shutil.rmtree(self.dir, ignore_errors=True)
 
 
